@@ -43,7 +43,7 @@ def timeout(tier):
 def floors(tier):
     return {"M4.calls": 3000, "direct.calls": 20000, "standard.spellings": 1500, "standard.accepted": 300,
             "standard.rejected_ok": 100, "anchored.spellings": 800, "exotic.spellings": 500, "cage.spellings": 20,
-            "M4.nonbipartite": 100, "set:kinds": 30, "order_groups": 500}
+            "M4.nonbipartite": 100, "M4.bipartite": 1000, "direct.bipartite": 2000, "direct.matchable": 3000, "set:kinds": 30, "order_groups": 500}
 
 
 def _has_f4_atom(mi):
@@ -57,10 +57,14 @@ def _has_f4_atom(mi):
     return False
 
 
+F3_SYMPTOMS = ("false_none", "invalid_matching")   # what a blossom-free augmenting-path search can produce
+
+
 def _m4_anomaly(log):
-    """-> (any anomaly, any anomaly on a non-bipartite graph, any on bipartite)"""
+    """-> (any anomaly, F3-type anomaly (blossom symptom on a non-bipartite graph), any other anomaly)"""
     bad = [r for r in log if r["verdict"] != "ok"]
-    return bool(bad), any(not r["bipartite"] for r in bad), any(r["bipartite"] for r in bad)
+    f3 = [r for r in bad if (not r["bipartite"]) and r["verdict"] in F3_SYMPTOMS]
+    return bool(bad), bool(f3), len(bad) > len(f3)
 
 
 class Arom(object):
@@ -98,8 +102,8 @@ class Arom(object):
             anomaly, nonbip, bip = _m4_anomaly(log)
             any_nonbip_anomaly = any_nonbip_anomaly or nonbip
             if bip:
-                ctx.finding("matching-wrong-on-bipartite-graph", dict(payload, graphs=[r_ for r_ in log if r_["verdict"] != "ok"][:2]),
-                            "M4: find_perfect_matching answered wrongly on a bipartite graph")
+                ctx.finding("matching-wrong-not-blossom-related", dict(payload, graphs=[r_ for r_ in log if r_["verdict"] != "ok"][:2]),
+                            "M4: find_perfect_matching answered wrongly on a bipartite graph, or with a symptom a missing blossom step cannot produce")
             ctx.count(cls + ".spellings")
             nontrivial = len(arom_edges) > len(kind_of) or any(k_ != "c" for k_ in kind_of)
             ctx.case(s, nontrivial, sample={"smiles": s, "class": cls, "accepted": r[0] == "ok"})
@@ -208,14 +212,17 @@ def direct_matching(ctx, sf):
             verdict, exists = judge_matching(g, r[1])
         else:
             verdict, exists = "raised:" + r[1], None
+        bip = is_bipartite(len(g), g)
+        ctx.count("direct.bipartite" if bip else "direct.nonbipartite")
+        if exists:
+            ctx.count("direct.matchable")
         if verdict == "ok":
             return
-        bip = is_bipartite(len(g), g)
         payload = {"graph": g, "result": r[1] if r[0] == "ok" else repr(r), "src": src}
-        if not bip:
+        if not bip and verdict in F3_SYMPTOMS:
             ctx.finding(F3, payload, "find_perfect_matching: %s on a non-bipartite graph" % verdict)
         else:
-            ctx.finding("matching-wrong-on-bipartite-graph", payload, "find_perfect_matching: %s on a bipartite graph" % verdict)
+            ctx.finding("matching-wrong-not-blossom-related", payload, "find_perfect_matching: %s (bipartite=%s)" % (verdict, bip))
 
     i = 0
     for n in (2, 4, 6) if quick else (2, 3, 4, 5, 6, 7):
@@ -259,6 +266,21 @@ def direct_matching(ctx, sf):
             rng.shuffle(l)
         feed(adj, "fused-random")
         ctx.case(("graph", tuple(map(tuple, adj))), True)
+    for it in range(1500 if quick else 40000):
+        # bipartite by construction: two sides, edges only across, degree <= 3 (hexagonal-lattice like)
+        n = rng.choice([10, 12, 16, 20, 26, 32, 40])
+        left, right = list(range(n // 2)), list(range(n // 2, n))
+        rng.shuffle(right)
+        adj = [[] for _ in range(n)]
+        for i, a in enumerate(left):
+            for b in (right[i], right[(i + 1) % len(right)], rng.choice(right)):
+                if b not in adj[a] and len(adj[a]) < 3 and len(adj[b]) < 3 and rng.random() < 0.85:
+                    adj[a].append(b)
+                    adj[b].append(a)
+        for l in adj:
+            rng.shuffle(l)
+        feed(adj, "bipartite-random")
+        ctx.case(("graph", tuple(map(tuple, adj))), True)
 
 
 def run(ctx):
@@ -272,8 +294,9 @@ def run(ctx):
     A = Arom(ctx)
     direct_matching(ctx, sf)
     for i in range(150 if quick else 4000):
-        sizes = rng.choice([(5, 6, 6, 6, 7), (5, 6, 6, 6, 7), (3, 4, 5, 6, 7, 8), (5, 5, 6, 7)])
-        m, kind_of, ae = standard_system(rng, sizes=sizes)
+        sizes = rng.choice([(5, 6, 6, 6, 7), (5, 6, 6, 6, 7), (3, 4, 5, 6, 7, 8), (5, 5, 6, 7), (6,), (6,), (4, 6, 8)])
+        m, kind_of, ae = standard_system(rng, sizes=sizes, chords=0 if len(sizes) <= 3 else None,
+                                         nrings=rng.choice([3, 4, 6, 8, 10]) if len(sizes) <= 3 else None)
         A.group(m, kind_of, ae, "standard", rng.choice([4, 4, 6, 8]), "G6-standard")
     for i in range(100 if quick else 3000):
         m, kind_of, ae, chosen = substituted_system(rng, ANCHORED)
@@ -307,7 +330,7 @@ def replay(ctx, payload):
         r = call_guard(lambda: fpm([list(l) for l in g]))
         verdict = judge_matching(g, r[1])[0] if r[0] == "ok" else "raised"
         if verdict != "ok":
-            ctx.finding(F3 if not is_bipartite(len(g), g) else "matching-wrong-on-bipartite-graph", payload, verdict)
+            ctx.finding(F3 if (not is_bipartite(len(g), g) and verdict in F3_SYMPTOMS) else "matching-wrong-not-blossom-related", payload, verdict)
         return
     s = payload["smiles"]
     del MON.match_log[:]
